@@ -268,8 +268,8 @@ func checkC02(r *Run) {
 			c := s.node.(*ast.CallExpr)
 			sz := norm(c.Args[1])
 			switch {
-			case s.fn.Key == "p9.recv":
-				ok, why = true, "size is "+sz+": bounded under r2"
+			case s.fn.Key == "p9.recv" || m.onlyFor(s.fn, "p9.recv"):
+				ok, why = true, "size is "+sz+": bounded under r2 (judged where recv runs it)"
 			case s.fn.Key == "p9.buffer.append":
 				ok, why = true, "encoder side (not on the receive path)"
 			default:
